@@ -10,14 +10,23 @@ P = {
                   'application has no other dependence is sampled: independently constructed replicas (different node-local settings, one '
                   'in a separate OS process) on random block histories of really signed transactions must give byte-identical responses '
                   'and app hashes; every range-over-map, go statement, wall-clock read and dynamic precompile registration in the '
-                  'state-machine packages must be discharged automatically or by the reviewed list corpus/C01/map_range_sites.json',
+                  'state-machine packages must be discharged automatically or by the reviewed list corpus/C01/map_range_sites.json. '
+                  'The replicas also live different PROCESS HISTORIES named by the input (ABCI queries incl. eth_call / estimateGas / '
+                  'trace / Simulate, CheckTx, restarts from the database, construction order and throw-away applications), the genesis '
+                  'varies staking HistoricalEntries, and an environment-probe contract makes tx data, gas and state depend on BLOCKHASH '
+                  'of recent and pruned heights and on every other environment opcode. For BLOCKHASH the dependence on block inputs only '
+                  'is a theorem: GetHashFn over TrackHistoricalInfo is transcribed, any interleaving of queries / CheckTx / restarts '
+                  'leaves two replicas with the same historical info after every block, the available heights are characterised exactly '
+                  '(max 1 (n-e+1) <= req < n, n-req <= 256), and the zero / non-zero pattern the probe observed is compared with that '
+                  'model for every history',
     'level_note': 'partial by nature: Go map iteration order, goroutine scheduling, IAVL hashing and the wall clock cannot be exhibited '
                   'in Coq; the theorems are about hand-written models (commit: shared with C02 and tied there; registries / DAO export: '
                   'tied by the registries driver; ante functions: transcribed, tied only through the replica run with different '
                   'minimum-gas-prices / max-tx-gas-wanted); everything below the keepers is sampled only; no axioms',
     'technique': 'Coq proof (permutation invariance through sorting / sets / look-ups; induction over blocks) + N-replica differential '
                  'execution of random block histories + typed source scan of order / scheduling / clock sites with a reviewed '
-                 'classification file',
+                 'classification file; replicas with explicit, replayable process-history perturbations and an '
+                 'environment-probe contract; Coq model of the BLOCKHASH environment function evaluated on the observed pattern',
     'drivers': [
         {'name': 'mapscan', 'n': {'quick': 1, 'thorough': 1}},
         {'name': 'replicas', 'n': {'quick': 64, 'thorough': 800}, 'shrink_field': 'blocks', 'batch': 12, 'timeout': 3000},
@@ -26,22 +35,35 @@ P = {
     ],
     'coq_header': 'From HV Require Import App.DeterminismModel.\nFrom Coq Require Import ZArith NArith List.\nImport ListNotations.',
     'lists': {'sites': {'type': 'N', 'check': 'site_mismatches', 'shard': 400},
-              'regs': {'type': 'rcase', 'check': 'rmismatches', 'shard': 100}},
+              'regs': {'type': 'rcase', 'check': 'rmismatches', 'shard': 100},
+              'bh': {'type': 'bh_case', 'check': 'bh_mismatches', 'shard': 40}},
     'search': {'rounds': 2, 'n': 40},
     'rule': 'replicas: a case is one block history (quick 15 blocks / 2 replicas, thorough 40 blocks / 3 replicas; every 4th history '
             'adds a replica in a separate OS process) generated as for C15 (really signed Cosmos and Ethereum transactions incl. '
             'precompile call trees, gov, staking, slashing, vesting, liquid vesting, DAO, ERC20; absent validators, evidence, time steps '
-            'of seconds to days; occasionally the v1.7.5 upgrade); compared after every block: BeginBlock response, every '
+            'of seconds to days; occasionally the v1.7.5 upgrade) plus: complete CometBFT-like headers (so that stored headers hash), '
+            'staking HistoricalEntries drawn from {0,1,2,3,5,10000}, the environment-probe contract (harness/envprobe.go: BLOCKHASH of '
+            'NUMBER-k for 13 fixed k up to 257 and of the heights in calldata, NUMBER, TIMESTAMP, COINBASE, CHAINID, BASEFEE, GASLIMIT, '
+            'DIFFICULTY, SELFBALANCE, ORIGIN, GASPRICE; digest and every asked hash stored and returned) deployed by the first '
+            'transaction and called at various heights incl. already pruned ones, and per-replica perturbations between the blocks '
+            '(bhBlock.pre / bhInput.proc, harness/replica_perturb.go: ethcall, estimategas, trace, simulate, bankq, stakingq, evmq, '
+            'checktx-next, checktx-junk, restart, construct; construction order and throw-away instances), two scripted shapes in 3 of 4 '
+            'histories with 2 <= HistoricalEntries (a height evaluated by a query on one replica, or by a transaction followed by a '
+            'restart of one replica, while its header is kept, and again by a transaction after it was pruned); list bh: per history '
+            '(HistoricalEntries, [(context height, asked word, answer non-zero)]) from delivered probe calls and eth_call answers vs '
+            'hash_fn (hist_after e _ cur); compared after every block: BeginBlock response, every '
             'ResponseDeliverTx (code, codespace, data, gas wanted / used, events in order; log / info excluded as documented '
             'non-deterministic), EndBlock response incl. validator updates, app hash; non-trivial = at least 5 accepted transactions of '
-            '3 kinds. mapscan: one case per site (typed scan with go/types over export data of `go list`). registries: DAO export / '
+            '3 kinds; a divergence names the height, the block index of the replay and the transaction; corpus witnesses: the two '
+            'BLOCKHASH shapes, the 256-block window, and a restart directly before a block with a transaction refused before the ante '
+            'handler (found by this driver on /repo before e83669d: GasUsed and app hash depended on the restart). mapscan: one case per site (typed scan with go/types over export data of `go list`). registries: DAO export / '
             'sorted precompile keys / blocked addresses vs the model, and a metamorphic run of the real StateDB (same final values, '
             'differently ordered journals, incl. a failing blocked-address credit) whose store fingerprints must agree. upgrade175: the '
             'real v1.7.5 handler run several times on forks of one state with hundreds of liquid-token holders must write the same state',
     'trusted_base': [
         'Coq 8.16.1 kernel incl. vm_compute (no native_compute); std++ 1.8.0 gmap / sorting',
         'axioms: none (Print Assumptions: closed under the global context for every theorem of Props/C01.v)',
-        'harness: harness/blocks.go, blockgen.go, replicas.go, mapscan.go (go/parser + go/types, export data from `go list -export`), '
+        'harness: harness/blocks.go, blockgen.go, replicas.go, replica_perturb.go, envprobe.go, asm.go, mapscan.go (go/parser + go/types, export data from `go list -export`), '
         'registries.go, upgrade175.go + vlib/core.py; the replicas share one OS process except the separate-process replica',
         'reviewed by hand: corpus/C01/map_range_sites.json (5 entries); the automatic site rules of mapscan.go',
         'not verified, sampled only: Go runtime map order and scheduling, CometBFT (the harness plays its role: header, votes, '
@@ -49,6 +71,10 @@ P = {
     ],
     'assumptions': [
         'replicas receive identical block inputs (header incl. the canonical app hash, votes, evidence, transaction bytes)',
+        'a perturbation of the in-process replicas shares the operating-system process with the other in-process replicas; only the '
+        'separate-process replica (every 4th history, and every replay) has its own package-level state',
+        'the BLOCKHASH model abstracts a header hash to non-zero; HistoricalEntries is constant within a history (no generated '
+        'transaction changes staking params)',
         'log and info strings of responses are not consensus data (CometBFT excludes them from the results hash)',
         'the node-local settings varied are: minimum-gas-prices, home, inv-check-period, IAVL cache size, inter-block cache, pruning, '
         'evm max-tx-gas-wanted, trace; index-events is not varied because it legitimately sets the `index` flag of returned events',
